@@ -308,6 +308,9 @@ func (n *RegexNode) finalOptimize() *RegexNode {
 	// Also only apply these optimizations when not using NonBacktracking, as these optimizations are
 	// all about avoiding things that are impactful for the backtracking engines but nops for non-backtracking.
 	if n.Options&RightToLeft == 0 {
+		if verifRewritesOff() {
+			return rootNode
+		}
 		// Optimization: eliminate backtracking for loops.
 		// For any single-character loop (Oneloop, Notoneloop, Setloop), see if we can automatically convert
 		// that into its atomic counterpart (Oneloopatomic, Notoneloopatomic, Setloopatomic) based on what
@@ -597,6 +600,9 @@ func (n *RegexNode) reduceAtomic() *RegexNode {
 	// Alternations have a variety of possible optimizations that can be applied
 	// iff they're atomic.
 	case NtAlternate:
+		if verifRewritesOff() {
+			return atomic
+		}
 		if (n.Options & RightToLeft) == 0 {
 			branches := child.Children
 
@@ -734,6 +740,9 @@ func (n *RegexNode) makeLoopAtomic() {
 // the provided node.  That means it must be at the root of the overall expression, or
 // it must be an Atomic node that nothing will backtrack into by the very nature of Atomic.
 func (n *RegexNode) eliminateEndingBacktracking() {
+	if verifRewritesOff() {
+		return
+	}
 	// Walk the tree starting from the current node.
 	node := n
 	for {
@@ -1051,6 +1060,9 @@ func (n *RegexNode) reduceAlternation() *RegexNode {
 // if we end up backtracking into subsequent branches.
 // e.g. abc|ade => a(?bc|de)
 func (n *RegexNode) extractCommonPrefixText() *RegexNode {
+	if verifRewritesOff() {
+		return n
+	}
 	// To keep things relatively simple, we currently only handle:
 	// - Left to right (e.g. we don't process alternations in lookbehinds)
 	// - Branches that are one or multi nodes, or that are concatenations beginning with one or multi nodes.
@@ -1166,6 +1178,9 @@ func (n *RegexNode) extractCommonPrefixText() *RegexNode {
 // the same across multiple contiguous branches.
 // e.g. \w12|\d34|\d56|\w78|\w90 => \w12|\d(?:34|56)|\w(?:78|90)
 func (n *RegexNode) extractCommonPrefixOneNotoneSet() *RegexNode {
+	if verifRewritesOff() {
+		return n
+	}
 	// Only process left-to-right prefixes.
 	if (n.Options & RightToLeft) != 0 {
 		return n
